@@ -560,6 +560,13 @@ impl Store {
     pub fn insert_frame(&self, frame: &Frame) -> Result<(), crate::error::Error> {
         let encoded: Vec<u8> = serde_json::to_vec(&frame).unwrap();
 
+        // Never store a frame whose own encoding cannot be read back (a meta nested up to the
+        // JSON recursion limit becomes one level deeper inside the frame): every later read
+        // would panic on it.
+        if let Err(e) = serde_json::from_slice::<Frame>(&encoded) {
+            return Err(format!("frame cannot be stored: {}", e).into());
+        }
+
         // Get the index topic key
         let topic_key = idx_topic_key_from_frame(frame)?;
 
